@@ -174,18 +174,37 @@ def run_case(case, world):
                     'installed tables' % (after, ver), feats)
         return tb
 
+    def all_block_names():
+        from elementpath.regex import unicode_blocks as UB
+        names = set()
+        for k, v in vars(UB).items():
+            if isinstance(v, dict) and (k.startswith('UNICODE_BLOCKS_VER_') or k.startswith('UPDATE_BLOCKS_VER_')):
+                names.update(v)
+        # names superseded up to the installed version stay available for XSD compatibility (e.g. Greek next to
+        # GreekandCoptic): they are aliases by design, not blocks of the installed version
+        ver = tuple(int(x) for x in unicode_version().split('.'))
+        superseded = set()
+        for k, v in vars(UB).items():
+            if k.startswith('REMOVED_BLOCKS_VER_') and tuple(int(x) for x in k[19:].split('_')) <= ver:
+                superseded.update(v)
+        return sorted(n.replace(' ', '').replace('_', '') for n in names if n not in superseded)
+
     def check_blocks(feats):
-        names = ['BasicLatin', 'Latin-1Supplement', 'Greek', 'Cyrillic', 'Arrows', 'CJKUnifiedIdeographs',
-                 'Hebrew', 'Arabic', 'Thai', 'PrivateUse', 'Specials']
-        seen = 0
-        for n in names:
+        """All blocks the installed version defines are pairwise disjoint."""
+        seen = []
+        for n in all_block_names():
             try:
                 b = B.from_codepoints(unicode_block(n).codepoints)
             except KeyError:
                 continue
-            if seen & b and n not in ('PrivateUse', 'Specials'):
-                violate('TABLES', 'blocks-overlap', 'block %s overlaps another block (version %s)' % (n, unicode_version()), feats)
-            seen |= b
+            for m_, bm in seen:
+                if bm & b:
+                    violate('TABLES', 'blocks-overlap', 'blocks %s and %s overlap on %r (version %s)' % (
+                        m_, n, B.intervals(bm & b)[:3], unicode_version()),
+                        feats + ['blocks:%s+%s' % tuple(sorted((m_, n)))])
+                    return
+            seen.append((n, b))
+        stats['blocks_checked'] = stats.get('blocks_checked', 0) + len(seen)
 
     prev = check_tables('start', ['start'])
     prev_ver = unicode_version()
